@@ -12,6 +12,7 @@ CONSTANTS
   MaxFail = 0
   MaxCalls = 2
   MaxApi = 0
+  WithGC = TRUE
   AtomicPeers = FALSE
   SignedWant = FALSE
   Serialized = FALSE
